@@ -391,6 +391,7 @@ static void doVM(std::stringstream &ss) {
   VM v(p);
   std::string out;
   bool first = true;
+  std::vector<VM::Activation> kept;   // value copies of activation objects a front end may hold on to (ops k / q)
   for (auto &op : splitList(f["ops"], ',')) {
     long ret = 0;
     if (op == "s")
@@ -407,7 +408,19 @@ static void doVM(std::stringstream &ss) {
       v.clearBreakpoints();
     else if (op == "r")
       v.reset();
-    else if (op == "v") {
+    else if (op == "k") {
+      kept = v.getActivations();
+    } else if (op == "q") {
+      // refresh the views of the kept copies: only those whose named registers all still lie inside the data segment
+      // (anything else would be a read outside the segment already in the caller's request)
+      for (auto &a : kept) {
+        if (a.debug_info < 0 || (size_t)a.debug_info >= v.code.stack_maps.size()) continue;
+        bool inside = true;
+        for (auto &e : v.code.stack_maps[a.debug_info].map)
+          if (e.first < 0 || (size_t)(a.data_start + e.first) >= v.data.size()) inside = false;
+        if (inside) (void)a.getActivationVariables();
+      }
+    } else if (op == "v") {
       // a call-stack view: inspect every activation through the reference the API hands out, and the locations
       for (auto &a : v.getActivations()) (void)a.getActivationVariables();
       (void)v.getCurrentBreak();
